@@ -268,6 +268,17 @@ example : Reachable Cfg.current demoHeap (rootWords Cfg.current demoHeap demoThr
 example : Reachable Cfg.current demoHeap (rootWords Cfg.current demoHeap demoThread []) 4288 :=
   .root (by simp [rootWords]; left; decide) (by decide)
 
+/-- non-vacuity of the standing hypotheses: a concrete heap with an Array, a self-containing Tuple, plain structs and
+    garbage is well formed and callback-safe; a history with allocation, store, root change, deletion and two
+    collections consists of admissible operations -/
+example : demoHeap.WF ∧ demoHeap.CallbackSafe := ⟨demoHeap_wf, demoHeap_safe⟩
+
+example : ∀ op ∈ [HOp.alloc 4416 ⟨.raw "Ref" [4096], false⟩, .write 4224 (.raw "Probe" [4416]), .setStack [4160],
+    .collect, .del 4352, .setThread demoThread, .collect], op.ok := by
+  intro op hop
+  simp only [List.mem_cons, List.not_mem_nil, or_false] at hop
+  rcases hop with h | h | h | h | h | h | h <;> subst h <;> simp [HOp.ok]
+
 /-- **Refuted (F25, repaired by fc3452e).** With thread-local storage handed to `GC_Mark_Item` only, the object at 4288 —
     reachable, but only from thread-local storage — is not marked and ends up on the pending list. -/
 theorem C01_tls_item_only_refuted :
@@ -289,7 +300,18 @@ theorem C01_tls_item_only_refuted :
 theorem C01_unguarded_callback_refuted {σ : Type} (S : MarkSet σ) :
     let c : Cfg := { Cfg.current with guarded := false }
     ∀ d, (level S c selfTupleHeap d).item 4096 S.empty = .deep :=
-  fun d => selfTuple_diverges S d
+  fun d => selfTuple_diverges S _ (by decide) (by decide) rfl d
+
+/-- **Refuted (known finding F27, not repaired): "every collection runs to completion within a fixed stack".**
+    Full statement that fails: `∃ d, ∀ h ws, (foldRes (level S Cfg.current h d).item ws S.empty) ≠ .deep`.
+    For every depth budget `d` there is a heap — a chain of `d+1` Refs, well formed and callback-safe, every object
+    reachable from the root word 8 — on which the marker with the call structure of GC.c needs more than `d` nested
+    activations: on the real machine, a chain longer than the C stack allows overflows it (witness
+    corpus/kf_c01_deep_chain.ops).  What is proved instead: `C01_rec_completes` (some finite depth always suffices). -/
+theorem C01_fixed_stack_refuted {σ : Type} (S : MarkSet σ) (d : Nat) :
+    (chainHeap (d + 1)).WF ∧ (chainHeap (d + 1)).CallbackSafe ∧
+    (level S Cfg.current (chainHeap (d + 1)) d).item 8 S.empty = .deep :=
+  ⟨chainHeap_wf _, chainHeap_safe _, chain_exceeds_budget S Cfg.current (by decide) (by decide) (by decide) d⟩
 
 /-- … while the guarded callback completes on it and marks it (non-vacuity of `C01_rec_agrees`) -/
 example : (level listSet Cfg.current selfTupleHeap 3).item 4096 [] = .ok [4096] := by decide
